@@ -72,6 +72,43 @@ def run(prop, tier, seed, replay):
             ck.add_violation(f"to_3d({ra[i]!r}, {dec[i]!r}) = {vec[i].tolist()} is more than 4 ulp from the exact vector",
                              {"ra": float(ra[i]), "dec": float(dec[i])})
             break
+    # input given in other number types (single precision catalogs, integer degrees converted by the caller, lists): the
+    # values ARE exact reals; the result must be as accurate as for the same values given in double precision
+    for dt in ("float32", "float16", "list", "int64"):
+        k = 60
+        if dt == "int64":
+            r0 = nprng.integers(0, 7, k).astype("int64")
+            d0 = nprng.integers(-1, 2, k).astype("int64")
+            arr = np.column_stack([r0, d0])
+        else:
+            r0 = nprng.uniform(0, 2 * np.pi, k).astype("float16" if dt == "float16" else "float32")
+            d0 = np.arcsin(nprng.uniform(-1, 1, k)).astype(r0.dtype)
+            arr = np.column_stack([r0, d0])
+        given = arr.astype("float64").tolist() if dt == "list" else arr
+        cc = attempt(lambda: AngularCoordinates(given), f"AngularCoordinates({dt} input)", {"dtype": dt})
+        if cc is None:
+            continue
+        v = attempt(cc.to_3d, f"to_3d ({dt} input)", {"dtype": dt})
+        sep = attempt(lambda: cc.distance(AngularCoordinates(np.roll(arr.astype("float64"), 1, axis=0))).data,
+                      f"distance ({dt} input)", {"dtype": dt})
+        ck.count(f"input-dtype={dt}")
+        if v is None or sep is None:
+            continue
+        for i in range(k):
+            r_, d_ = mp.mpf(float(arr[i, 0])), mp.mpf(float(arr[i, 1]))
+            ex = (mp.cos(r_) * mp.cos(d_), mp.sin(r_) * mp.cos(d_), mp.sin(d_))
+            ck.case(None, ("dtype", dt, i))
+            if any(abs(mp.mpf(float(v[i, j])) - ex[j]) > 4 * U for j in range(3)):
+                ck.add_violation(f"to_3d of the point ({float(arr[i, 0])!r}, {float(arr[i, 1])!r}) given as {dt} = {v[i].tolist()} is "
+                                 "more than 4 ulp from the exact vector (the same values given as float64 are converted exactly)",
+                                 {"ra": float(arr[i, 0]), "dec": float(arr[i, 1]), "dtype": dt})
+                break
+        ref64 = AngularCoordinates(arr.astype("float64")).distance(AngularCoordinates(np.roll(arr.astype("float64"), 1, axis=0))).data
+        if not np.array_equal(sep, ref64):
+            i = int(np.argmax(np.abs(sep - ref64)))
+            ck.add_violation(f"separation of two points given as {dt} ({sep[i]!r}) differs from the separation of the same "
+                             f"points given as float64 ({ref64[i]!r})", {"dtype": dt, "p": arr[i].tolist(),
+                                                                         "q": np.roll(arr, 1, axis=0)[i].tolist()})
     # from_3d(to_3d)
     back = attempt(lambda: AngularCoordinates.from_3d(vec), "from_3d", {})
     if back is not None:
